@@ -71,8 +71,30 @@ UamivStep(c, t) ==
   \o FlattenSeq([s \in 1..Len(c.spc) |->
         [k \in 1..c.nz |-> << I(1) >> \o A4(c.spc[s], 10) \o Grid(c, s, t, k)]])
 
+\* -------------------------------------------------- meteorological formats
+\* no file header; every record starts with the time (HHMM as a float) and the
+\* date (YYJJJ) of the step's beginning, followed by one horizontal slab
+OneVarFmts == {"one3d", "humidity", "vertical_diffusivity"}
+MetFmts == OneVarFmts \cup {"temperature", "height_pressure"}
+MetRec(c, t, s, k) == << F(HourOf(BeginOf(c, t)) * 100), I(YYJJJ(BeginOf(c, t))) >> \o Grid(c, s, t, k)
+MetStep(c, t) ==
+  CASE c.fmt \in OneVarFmts -> [k \in 1..c.nz |-> MetRec(c, t, 1, k)]
+    \* surface temperature (layer index 0 in the token), then the layers
+    [] c.fmt = "temperature" -> << MetRec(c, t, 1, 0) >> \o [k \in 1..c.nz |-> MetRec(c, t, 2, k)]
+    \* per layer: height, then pressure
+    [] c.fmt = "height_pressure" -> FlattenSeq([k \in 1..c.nz |-> << MetRec(c, t, 1, k), MetRec(c, t, 2, k) >>])
+
+\* the variables a reader of the format presents: name, token species, surface?
+FmtVars(c) ==
+  CASE c.fmt = "one3d" -> << [name |-> "UNKNOWN", s |-> 1, surf |-> FALSE] >>
+    [] c.fmt = "humidity" -> << [name |-> "HUM", s |-> 1, surf |-> FALSE] >>
+    [] c.fmt = "vertical_diffusivity" -> << [name |-> "KV", s |-> 1, surf |-> FALSE] >>
+    [] c.fmt = "temperature" -> << [name |-> "SURFTEMP", s |-> 1, surf |-> TRUE], [name |-> "AIRTEMP", s |-> 2, surf |-> FALSE] >>
+    [] c.fmt = "height_pressure" -> << [name |-> "HGHT", s |-> 1, surf |-> FALSE], [name |-> "PRES", s |-> 2, surf |-> FALSE] >>
+
 Layout(c) ==
   CASE c.fmt = "uamiv" -> UamivHeader(c) \o FlattenSeq([t \in 1..c.nt |-> UamivStep(c, t)])
+    [] c.fmt \in MetFmts -> FlattenSeq([t \in 1..c.nt |-> MetStep(c, t)])
 
 \* ------------------------------------------------------------ record algebra
 RecBytes(r) == 4 * Len(r) + 8                  \* payload + two length markers
@@ -81,8 +103,11 @@ SumLens(rs) == IF Len(rs) = 0 THEN 0 ELSE RecBytes(Head(rs)) + SumLens(Tail(rs))
 FileBytes(c) == SumLens(Layout(c))
 \* offset of the first byte after the first n records
 Offset(c, n) == SumLens(SubSeq(Layout(c), 1, n))
-NHeader(c) == CASE c.fmt = "uamiv" -> 4
+NHeader(c) == CASE c.fmt = "uamiv" -> 4 [] c.fmt \in MetFmts -> 0
 RecsPerStep(c) == CASE c.fmt = "uamiv" -> 1 + Len(c.spc) * c.nz
+                    [] c.fmt \in OneVarFmts -> c.nz
+                    [] c.fmt = "temperature" -> c.nz + 1
+                    [] c.fmt = "height_pressure" -> 2 * c.nz
 \* number of complete time steps contained in the first n bytes
 CompleteSteps(c, n) ==
   LET hb == Offset(c, NHeader(c))
